@@ -13,7 +13,7 @@ Modes
   * concrete D  : D is a Python int; loops with concrete bounds are unrolled, sums expanded.  Used for
                   counterexample search (quantifier free => real `sat` models) and for the CPython cross-check.
 """
-import ast, itertools, sys, time, hashlib
+import ast, itertools, os, sys, time, hashlib
 import z3
 
 I, R, B = z3.IntSort(), z3.RealSort(), z3.BoolSort()
@@ -119,6 +119,13 @@ class IntV:
     def __init__(s, t): s.t = t if z3.is_expr(t) else z3.IntVal(t)
 class Cell:
     def __init__(s, t): s.t = t
+class CellRef(Cell):
+    """x[d], x[d,p,...]: in NumPy a view of the array (all data arrays have ndim >= 2): reading gives the CURRENT contents and an
+    in-place update through the name writes into the array.  `sure` is False for forms that are a scalar copy when the array is
+    exactly 2-D (x[d,p] without Ellipsis/slice)."""
+    def __init__(s, st, base, idx, sure=True): s.st, s.base, s.idx, s.sure = st, base, idx, sure
+    @property
+    def t(s): return z3.Select(s.st.heap[s.base][0], s.idx)
 class BoolV:
     def __init__(s, t): s.t = t
 class View:          # view of a heap base along axis 0
@@ -326,6 +333,11 @@ class Exec:
         if isinstance(n, ast.IfExp):
             c = self.truth(self.ev(n.test))
             if isinstance(c, bool): return self.ev(n.body if c else n.orelse)
+            a_, b_ = self.ev(n.body), self.ev(n.orelse)
+            if isinstance(a_, IntV) and isinstance(b_, IntV): return IntV(z3.If(c.t, a_.t, b_.t))
+            if is_scalar(a_) and is_scalar(b_):
+                ta, tb = (st.alg.of_int(a_.t) if isinstance(a_, IntV) else a_.t), (st.alg.of_int(b_.t) if isinstance(b_, IntV) else b_.t)
+                return Cell(z3.If(c.t, ta, tb))
             raise Undecided('symbolic conditional expression')
         raise Undecided('expr ' + type(n).__name__)
 
@@ -475,9 +487,11 @@ class Exec:
             elts = sl.elts if isinstance(sl, ast.Tuple) else [sl]
             if all(self._trailing_ok(e) for e in elts): return v        # whole-cell view of a matrix temporary
             raise Undecided('element access into a matrix cell')
+        self._sub_sure = True
         if isinstance(sl, ast.Tuple):
             for e in sl.elts[1:]:
                 if not self._trailing_ok(e): raise Undecided('DP: non-trivial batch subscript ' + ast.unparse(sl))
+            self._sub_sure = any(not isinstance(e, ast.Name) for e in sl.elts[1:])
             sl = sl.elts[0]
         if isinstance(sl, ast.Constant) and sl.value is Ellipsis: return v
         if isinstance(sl, ast.Slice) and sl.lower is None and sl.upper is None and sl.step is None: return v
@@ -527,6 +541,8 @@ class Exec:
         if neg is True: it = it + v.length
         elif neg is None: raise Undecided('index of unknown sign')
         st.add_oblig('index in range: ' + ast.unparse(sl), z3.And(0 <= it, it < v.length), 'safety')
+        if getattr(self, 'row_views', True) and st.alg.name != 'int':
+            return CellRef(st, v.base, v.start + v.step * it, sure=getattr(self, '_sub_sure', True))
         return Cell(z3.Select(st.heap[v.base][0], v.start + v.step * it))
 
     def Pval(self):
@@ -546,6 +562,10 @@ class Exec:
                 if s != 1: raise Undecided('range step')
                 a = a[:2]
             return ('range',) + tuple(a)
+        if fn == 'reversed' and len(n.args) == 1:
+            r_ = self.ev(n.args[0])
+            if isinstance(r_, tuple) and r_ and r_[0] == 'range': return ('rrange', r_[1], r_[2])
+            raise Undecided('reversed() of a non-range')
         if fn in ('float', 'int') and len(n.args) == 1:
             v = self.ev(n.args[0])
             if fn == 'float': return Cell(alg.of_int(v.t)) if isinstance(v, IntV) else v
@@ -849,6 +869,11 @@ class Exec:
             cur = self.ev(s.target); new = self.binop(s.op, cur, self.ev(s.value))
             if isinstance(s.target, ast.Name) and isinstance(cur, View):
                 self.store_view(cur, new); return          # in-place update of the array the name refers to
+            if isinstance(s.target, ast.Name) and isinstance(cur, CellRef):
+                if not cur.sure: raise Undecided('in-place update through %s: view or scalar copy depends on the array rank' % s.target.id)
+                if not is_scalar(new): raise Undecided('array stored into a row view')
+                arr, L = st.heap[cur.base]; t = new.t if isinstance(new, Cell) else st.alg.of_int(new.t)
+                st.heap[cur.base] = (z3.Store(arr, z3.simplify(cur.idx), t), L); st.written.add(cur.base); return
             self.store(s.target, new); return
         if isinstance(s, ast.If): return self.ifstmt(s, rest)
         if isinstance(s, ast.Raise): raise Undecided('reachable raise: ' + ast.unparse(s)[:60])
@@ -912,6 +937,8 @@ class Exec:
         elif rng[0] == 'rrange': lo, hi, desc = rng[1].t, rng[2].t, True               # hi-1 .. lo
         else: lo, hi, desc = rng[2].t + 1, rng[1].t + 1, True                          # range(a,b,-1): a .. b+1
         k = self.loopno = self.loopno + 1
+        if not hasattr(self, 'loop_nodes'): self.loop_nodes = {}
+        self.loop_nodes[k] = s
         is_p = (var == 'p')
         a, b = ival(lo), ival(hi)
         if is_p:
@@ -928,6 +955,9 @@ class Exec:
                 st.env[var] = IntV(i); r = self.block(s.body)
                 if r is not None: raise Undecided('return inside loop')
             return
+        # pure accumulation loops (`acc += f(k)`) are summarised exactly as acc_0 + sum_k f(k): no invariant needed, and the result does
+        # not depend on how the loop happens to be indexed (robust against harmless re-indexing / renaming)
+        if not os.environ.get("VERIF_NO_SUMMARIZE") and self.try_summarize(s, var, lo, hi, k): return
         if k not in self.inv: raise Undecided('loop%d (%s) has symbolic bounds and no invariant in the contract' % (k, ast.unparse(s.iter)))
         inv = self.inv[k]; ghost = self.inv.get(('ghost', k))
         first, last_next = (lo, hi) if not desc else (hi - 1, lo - 1)
@@ -997,6 +1027,76 @@ class Exec:
         st.written |= wr
 
 
+def _contains(t, sub):
+    seen = set(); stack = [t]
+    while stack:
+        u = stack.pop()
+        if u.get_id() in seen: continue
+        seen.add(u.get_id())
+        if z3.eq(u, sub): return True
+        stack.extend(u.children())
+    return False
+
+
+def _try_summarize(self, s, var, lo, hi, k):
+    """returns True when the loop was recognised as a pure accumulation and its effect has been applied to the state"""
+    st = self.st; alg = st.alg
+    j = z3.Int('%s!acc%d' % (var, k))
+    saved = (dict(st.heap), dict(st.env), len(st.oblig), list(st.assume), set(st.written), st.reg.n, list(st.reg.terms), self.loopno, list(self.branch_conds), len(st.callee_log))
+    def restore(keep_oblig):
+        st.heap, st.env = dict(saved[0]), dict(saved[1]); st.assume = list(saved[3]); st.written = set(saved[4])
+        self.loopno = saved[7]; self.branch_conds = list(saved[8]); del st.callee_log[saved[9]:]
+        if not keep_oblig: del st.oblig[saved[2]:]; st.reg.n = saved[5]; st.reg.terms = list(saved[6])
+    st.written = set(); st.env[var] = IntV(j); st.assume = saved[3] + [lo <= j, j < hi]
+    try:
+        r = self.block(s.body)
+    except Undecided:
+        restore(False); return False
+    if r is not None or st.reg.n != saved[5] or len(st.callee_log) != saved[9] or self.loopno != saved[7]:
+        restore(False); return False
+    updates = []          # (kind, key, entry value term, increment term in j)
+    for b, (arr, L) in st.heap.items():
+        if b not in saved[0]:
+            continue
+        old = saved[0][b][0]
+        if z3.eq(arr, old): continue
+        if not (z3.is_store(arr) and z3.eq(arr.arg(0), old)): restore(False); return False
+        idx, val = arr.arg(1), arr.arg(2)
+        if _contains(idx, j): restore(False); return False
+        cur = z3.Select(old, idx)
+        g = self._increment(val, cur)
+        if g is None or _contains(g, cur) or _contains(g, old): restore(False); return False
+        updates.append(('heap', (b, idx), cur, g))
+    for nm, v in st.env.items():
+        if nm == var: continue
+        o = saved[1].get(nm)
+        if o is v or nm not in saved[1]: continue
+        if isinstance(o, Cell) and isinstance(v, Cell):
+            g = self._increment(v.t, o.t)
+            if g is None or _contains(g, o.t): restore(False); return False
+            updates.append(('env', nm, o.t, g))
+        else: restore(False); return False
+    if not updates: restore(False); return False
+    restore(True)                      # keep the safety obligations generated for an arbitrary index in range
+    for kind, key, cur, g in updates:
+        total = alg.add(cur, st.reg.Sum(lo, hi - 1, (lambda i, g=g: z3.substitute(g, (j, i)))))
+        if kind == 'heap':
+            b, idx = key; arr, L = st.heap[b]; st.heap[b] = (z3.Store(arr, idx, total), L); st.written.add(b)
+        else: st.env[key] = Cell(total)
+    self.summarized = getattr(self, 'summarized', 0) + 1
+    return True
+
+
+def _increment(self, val, cur):
+    """val = cur (+) g  ->  g, else None"""
+    alg = self.st.alg
+    if alg.name == 'mat':
+        if z3.is_app(val) and val.decl().name() == 'madd' and z3.eq(val.arg(0), cur): return val.arg(1)
+        if z3.is_app(val) and val.decl().name() == 'madd' and z3.eq(val.arg(1), cur): return val.arg(0)
+        return None
+    return z3.simplify(val - cur)
+
+
 class _Poison:
     def __init__(s, name): s.name = name
 _MISSING = object()
@@ -1025,6 +1125,10 @@ def _sum_consts(fs):
     return out
 
 def _undecided(msg): raise Undecided(msg)
+
+
+Exec.try_summarize = _try_summarize
+Exec._increment = _increment
 
 
 def _has_quant(f):
